@@ -121,7 +121,7 @@ impl Envelope {
         if !target.is_subset(&reveal_set) {
             return None;
         }
-        Some(self.elide_revealing_set(&reveal_set).elide_removing_set(target))
+        Some(self.reveal_paths_to(target))
     }
 
     /// Creates a proof that this envelope includes the single target element.
@@ -264,6 +264,52 @@ impl Envelope {
     /// Checks if this envelope contains all elements in the target set.
     ///
     /// Used during proof verification to confirm all target elements exist in the proof.
+    /// Builds the proof by position: an element stays revealed only if a
+    /// target lies strictly inside it; everything else, including each
+    /// innermost target, becomes its elided digest.
+    ///
+    /// (Revealing and removing by digest sets is not enough here: an outer
+    /// target must stay revealed when another target lies inside it, or the
+    /// inner one drops out of the proof and the verifier rejects it; and an
+    /// element off the paths that merely shares its digest with an element on
+    /// a path, such as a compressed copy of it, must not be disclosed.)
+    fn reveal_paths_to(&self, target: &HashSet<Digest>) -> Envelope {
+        if !self.contains_any_below(target) {
+            return self.elide();
+        }
+        match self.case() {
+            EnvelopeCase::Node { subject, assertions, .. } => {
+                let subject = subject.reveal_paths_to(target);
+                let assertions = assertions.iter().map(|a| a.reveal_paths_to(target)).collect();
+                Self::new_with_unchecked_assertions(subject, assertions)
+            }
+            EnvelopeCase::Wrapped { envelope, .. } => {
+                Self::new_wrapped(envelope.reveal_paths_to(target))
+            }
+            EnvelopeCase::Assertion(assertion) => {
+                let predicate = assertion.predicate().reveal_paths_to(target);
+                let object = assertion.object().reveal_paths_to(target);
+                Self::new_assertion(predicate, object)
+            }
+            _ => self.elide(),
+        }
+    }
+
+    /// Returns true if a target element occurs strictly inside this element.
+    fn contains_any_below(&self, target: &HashSet<Digest>) -> bool {
+        let is_or_contains = |e: &Envelope| target.contains(&e.digest()) || e.contains_any_below(target);
+        match self.case() {
+            EnvelopeCase::Node { subject, assertions, .. } => {
+                is_or_contains(subject) || assertions.iter().any(is_or_contains)
+            }
+            EnvelopeCase::Wrapped { envelope, .. } => is_or_contains(envelope),
+            EnvelopeCase::Assertion(assertion) => {
+                is_or_contains(&assertion.predicate()) || is_or_contains(&assertion.object())
+            }
+            _ => false,
+        }
+    }
+
     fn contains_all(&self, target: &HashSet<Digest>) -> bool {
         let mut target = target.clone();
         self.remove_all_found(&mut target);
